@@ -19,7 +19,7 @@ func init() {
 		Technique: "storage-layout analysis: component kinds of every Find prefix and every Put key (constant, fixed-width, variable-length integer, caller-supplied bytes) — R-prefix rule, constant-prefix family disjointness, put/get key-term agreement; must-facts for the gates, the id length bound and the cleanup deltas",
 		Explanation: "D1 R-prefix: a Find whose prefix ends in a variable-length integer encoding while stored keys of that family continue after it also enumerates keys of other integers (bytes(1) is a prefix of bytes(257)); every scan of reputation, audit, container estimations, neofsid and the configuration maps is classified. Constant scan prefixes are family-disjoint. " +
 			"D2 put/get agreement: every getter builds its key/prefix from the same component terms as the putter (reputation storageID, audit header ID, estimation key, owner keys, config‖key); GetContainerSize accepts exactly the ids ListContainerSizes can return (length bound = prefix + container id). " +
-			"D3 gates: putContainerSize under W(key) ∧ membership of that key in the previous epoch's network map, audit.put under W(header.From) ∧ header.From ∈ Inner Ring. D4 cleanup: estimations are removed exactly when epoch − e > 3 (per node) resp. > 4 (global), with the key rebuilt by the same components as the putter. D5 neofsid.AddKey/RemoveKey act on every submitted key (loop-exhaustive rule); netmap.SetConfig, reputation.Put and audit.Put store on every normal return. D6 the global estimation cleanup examines every scanned key (scan left only on exhaustion; an iteration goes round the delete only with epoch − e ≤ 4). M: the reputation value counter continues from the stored one. R7 collect-every: in the list getters and their same-package helpers a loop driven by iterator.Next that accumulates does so in every iteration (or skips only an item already in the map it fills). R9: the per-node list of estimation epochs is read from and written back to a key naming both the container id and the node.",
+			"D3 gates: putContainerSize under W(key) ∧ membership of that key in the previous epoch's network map, audit.put under W(header.From) ∧ header.From ∈ Inner Ring. D4 cleanup: estimations are removed exactly when epoch − e > 3 (per node) resp. > 4 (global), with the key rebuilt by the same components as the putter. D5 neofsid.AddKey/RemoveKey act on every submitted key (loop-exhaustive rule); netmap.SetConfig, reputation.Put and audit.Put store on every normal return. D6 the global estimation cleanup examines every scanned key (scan left only on exhaustion; an iteration goes round the delete only with epoch − e ≤ 4). M: the reputation value counter continues from the stored one. R7 collect-every: in the list getters and their same-package helpers a loop driven by iterator.Next that accumulates does so in every iteration (or skips only an item already in the map it fills). R9: the per-node list of estimation epochs is read from and written back to a key naming both the container id and the node. S3: every container tick that returns normally has scanned the estimations (scan-always; a way round that depends on a stored key nobody writes is not a way).",
 		NotCovered: "multiset equality of listings with a model over interleavings. KNOWN FINDINGS (genuine, recorded in known_findings.json): the four scans that end in the variable-length epoch encoding.",
 		Run:        runC20,
 	})
@@ -475,6 +475,13 @@ func runC20(cx *CheckCtx) {
 			}
 		}
 		cx.decide(ok, "put-get-key", "container.IterateContainerSizes", "scans 'cnr'‖bytes(epoch)‖cid(32)", "IterateContainerSizes does not scan the keys PutContainerSize writes for (epoch, cid)", w.pos(m.Fn.Pos()))
+		// "readable back exactly as stored": an estimation reader refuses only a malformed id — no fault of it is
+		// decided on what the registry holds (an estimation stays readable after its container was deleted)
+		onState := func(ct *Term) bool {
+			return ct.contains(func(x *Term) bool { return x.Op == "read" || x.Op == "ret" || x.Op == "find" || x.Op == "iterval" })
+		}
+		nRd, _ := panicOnlyIfCond(a, m.Fn, onState, nil)
+		cx.decide(nRd == 0, "put-get-key", "container.IterateContainerSizes/refuses-only-malformed", "no fault is decided on stored state", "IterateContainerSizes can fault on what the storage holds (the container is gone, a record is absent): estimations that were accepted and stored cannot be read back", w.pos(m.Fn.Pos()))
 	}
 	if m := cx.method("container", "GetContainerSize"); m != nil {
 		a := cx.run(m)
@@ -726,6 +733,17 @@ func checkCollectEveryIn(cx *CheckCtx, roots map[string][]string, floor int) {
 							// an append that carries the answer round the loop: its base is a value of the loop
 							// header (the accumulator) or a cell outside the loop — not the construction of a key
 							// from a constant prefix inside one iteration
+							// (an accumulating helper: result = add(result, item) with the loop-carried answer as first
+							// argument and the call's value going back into that phi)
+							if cal := x.Common().StaticCallee(); cal != nil && cal.Pkg == fn.Pkg && len(x.Common().Args) >= 2 {
+								if ph, isPhi := stripConv(x.Common().Args[0]).(*ssa.Phi); isPhi && in[ph.Block()] {
+									for _, e := range ph.Edges {
+										if stripConv(e) == ssa.Value(x) {
+											acc = append(acc, blk)
+										}
+									}
+								}
+							}
 							if base, _, isApp := appendOf(x); isApp {
 								carried := false
 								switch bv := base.(type) {
